@@ -863,7 +863,11 @@ def main(tier: str) -> int:
               ins_spec("gauss2", sd + 3, 50, min_samples=48, min_remove=5, draw_constant=False),
               ins_spec("gauss4", sd + 4, 100, min_samples=30, max_samples=250, threshold_method="quantile",
                        threshold_kwargs={"q": 0.7}),
-              ins_spec("gauss2", sd + 5, 100, min_samples=90, min_remove=50, strict_threshold=True)]
+              ins_spec("gauss2", sd + 5, 100, min_samples=90, min_remove=50, strict_threshold=True),
+              # ties: a flat top (many samples at the maximum likelihood) and a ladder of plateaus
+              ins_spec("flat2", sd + 6, 50, min_samples=20, max_iteration=6),
+              ins_spec("flat2", sd + 7, 50, min_samples=20, max_iteration=6, draw_iid_live=False),
+              ins_spec("plateau2", sd + 8, 60, min_samples=25, min_remove=5, max_iteration=5)]
     if tier == "thorough":
         k = 6
         for ms, mr, dc in ((10, 1, True), (40, 20, False), (95, 30, False), (50, 50, True), (99, 1, False)):
